@@ -81,6 +81,9 @@ def run_case(c):
                 def f(ev):
                     record(ev)
                     if cb.get("raises"):
+                        if cb["id"] % 3 == 0:
+                            # what a callback that asks a cancelled future for its result raises: not an Exception
+                            raise asyncio.CancelledError("callback %d" % cb["id"])
                         raise RuntimeError("callback %d" % cb["id"])
                 # an application may register any callable: the shape follows from the id, so
                 # that the case itself (and the model's input) stays as it is
